@@ -241,4 +241,64 @@ def lookup (pm : Matcher) (m : Bytes) : Option Lookup :=
     | none => some .outside
     | some k => (hardMatch pm k m).map (Lookup.slot k)
 
+/-! ### tables built once (the driver's use of `matcherOf`) -/
+
+/-- `f` with its results for the listed tables precomputed: the same function
+    (`cachedMk_eq`, Props/C04.lean) -/
+def cachedMk (f : List Bytes → Option Matcher) (cache : List (List Bytes × Option Matcher))
+    (names : List Bytes) : Option Matcher :=
+  match cache.lookup names with
+  | some r => r
+  | none => f names
+
+def buildCache (f : List Bytes → Option Matcher) (tables : List (List Bytes)) :
+    List (List Bytes × Option Matcher) :=
+  tables.map (fun n => (n, f n))
+
+/-! ### the unrepaired code, for the record (`…_counterexample` in Props/C04.lean) -/
+
+/-- `hard_match` before C04-01: `strncmp` only, a prefix test -/
+def hardMatchUnfixed (pm : Matcher) (i : Nat) (m : Bytes) : Option Bool :=
+  match pm.fixed[i]? with
+  | none => none
+  | some key =>
+    match strncmpEq key m with
+    | none => none
+    | some false => some false
+    | some true =>
+      match pm.argSpec[i]? with
+      | none => none
+      | some none => some true
+      | some (some spec) => Match.portMatcherArgs spec m
+
+/-- the lookup with the unrepaired `hard_match` (characters below 127: the unguarded
+    index of C04-04 makes no difference) -/
+def lookupUnfixed (pm : Matcher) (m : Bytes) : Option Lookup :=
+  match firstLen m with
+  | none => none
+  | some len =>
+    let t := hashStr pm.pos pm.assoc (m.take len)
+    match pm.remap[t]? with
+    | none => some .outside
+    | some k => (hardMatchUnfixed pm k m).map (Lookup.slot k)
+
+/-- `refreshMagic` before C04-02 / C04-03: only '#' keeps a table from being hashed, and
+    what `find_assoc` returns is used unchecked -/
+def matcherOfUnfixed (S : Search) (names : List Bytes) : Option Matcher :=
+  let base : Matcher := { fixed := [], argSpec := [], pos := [], assoc := [], remap := [],
+                          enump := names.map (hasChar 35) }
+  if names.any (hasChar 35) then some base
+  else
+    let ks := names.map splitName
+    let keys := ks.map (·.1)
+    let m1 : Matcher := { base with fixed := keys, argSpec := ks.map (·.2) }
+    if keys.isEmpty then some m1
+    else
+      let pos := S.findPos keys
+      if pos.isEmpty then some m1
+      else if !keysInRange keys then none
+      else
+        let assoc := S.findAssoc keys pos
+        some { m1 with pos := pos, assoc := assoc, remap := findRemap keys pos assoc }
+
 end Rtosc.Ports.Hash
